@@ -70,8 +70,14 @@ def one(args):
     sub = os.path.join(wd, "j%d" % os.getpid())
     os.makedirs(sub, exist_ok=True)
     src = os.path.join(sub, "t.c")
+    import zlib
+    # every third configuration makes cpp talk on stderr while succeeding (a #warning, a macro redefinition): what
+    # parse_file parses is cpp's standard output, nothing else
+    noisy = zlib.crc32(("%s|%s|%s" % (h, d, form)).encode()) % 3 == 0
     with open(src, "w") as f:
         f.write("#include <%s>\n" % h)
+        if noisy:
+            f.write("#define VERIF_M 1\n#define VERIF_M 2\n#warning verif: harmless\nint verif_after_warning;\n")
     shim = os.path.join(sub, "cppshim")
     if not os.path.exists(shim):
         with open(shim, "w") as f:
@@ -88,10 +94,17 @@ def one(args):
     else:
         cpp_args = "-I" + spaced
         os.environ["SHIM_EXTRA"] = "-std=%s -nostdinc" % d
+    # cpp's chatter on stderr is not wanted on the check's own stderr
+    devnull, saved = os.open(os.devnull, os.O_WRONLY), os.dup(2)
+    os.dup2(devnull, 2)
     try:
         ast = parse_file(src, use_cpp=True, cpp_path=shim, cpp_args=cpp_args)
     except Exception as e:
         return (h, d, form, "parse_file raised %s: %s" % (type(e).__name__, str(e)[:100]), None)
+    finally:
+        os.dup2(saved, 2)
+        os.close(saved)
+        os.close(devnull)
     argv = open(shim + ".argv").read().split("\n")[:-1]
     want = [a.replace("<FILE>", src) for a in argv_model[1:]]
     if form == "str":
@@ -99,7 +112,8 @@ def one(args):
     if argv != want:
         return (h, d, form, "argv handed to cpp is %s, the model says %s" % (argv, want), None)
     # by hand
-    text = subprocess.check_output(["cpp", "-std=" + d, "-nostdinc", "-I" + (spaced if form == "str" else FAKE), src], text=True)
+    text = subprocess.check_output(["cpp", "-std=" + d, "-nostdinc", "-I" + (spaced if form == "str" else FAKE), src], text=True,
+                                   stderr=subprocess.DEVNULL)
     try:
         byhand = c_parser.CParser().parse(text, src)
     except Exception as e:
